@@ -28,6 +28,14 @@ import (
 type c14Job struct {
 	docs []*model.MDoc
 	mode uint32
+	norm int // which norm function the build uses (the output depends on batch, norm function and chunk mode only)
+}
+
+func c14Norm(v int) func(string, int) float32 {
+	if v == 1 {
+		return func(field string, l int) float32 { return 1 / float32(l+2) }
+	}
+	return model.NormCalc
 }
 
 const c14JobsPerCase = 10
@@ -50,7 +58,7 @@ func c14Jobs(seed int64, caseIdx int) []c14Job {
 		}
 		docs := gen.GenBatch(r, sch, n, fmt.Sprintf("c%dj%d", caseIdx, j), gen.DocOpts{Repeat: r.Intn(2) == 0})
 		model.ToSegDocs(docs)
-		jobs = append(jobs, c14Job{docs, gen.Mode(r, n)})
+		jobs = append(jobs, c14Job{docs, gen.Mode(r, n), j % 2})
 	}
 	return jobs
 }
@@ -59,7 +67,7 @@ func c14Build(j c14Job) (string, error) {
 	var s segment.Segment
 	var err error
 	panicked, msg, stack := runner.Try(func() {
-		s, _, err = ice.VerifNew(model.ToSegDocs(j.docs), model.NormCalc, j.mode)
+		s, _, err = ice.VerifNew(model.ToSegDocs(j.docs), c14Norm(j.norm), j.mode)
 	})
 	if panicked {
 		return "", fmt.Errorf("panic in New: %s\n%s", msg, stack)
